@@ -14,6 +14,7 @@ import StarsimModel.Lemmas.ParsRefs
 import StarsimModel.Generated.ParsRefs
 import StarsimModel.Model.ParsSim
 import StarsimModel.Generated.ParsSimLevel
+import StarsimModel.Lemmas.ParsTime
 
 namespace StarsimModel.C17
 open StarsimModel.Pars
@@ -820,5 +821,115 @@ example :
       = .ok ⟨[.births (some 25)], some true⟩ := by decide
 
 end SimLevel
+
+
+/-! ### Round 5: the FIELDS of a time parameter given in list / dict form
+
+`[v, unit, ...]` reaches `old.set(*new)`, `dict(v=…, unit=…, self_dt=…)` reaches `old.set(**new)`.  `TimePar.set`, the
+constructor, the fields `validate_units` maps through the name table, the table (`unit_mapping_reverse`) and `time_units` are
+regenerated (Generated/ParsTimePar.lean): storing anything but the supplied object, dropping the final `validate_units()`,
+mapping a field leniently, or a table in which a name spells "inherit" stops these theorems from elaborating. -/
+
+section TimeParFields
+open StarsimModel.ParsTime
+/-- `update_pars(list)` / `(dict)` reach `set` spread positionally / by keyword -/
+theorem C17_timepar_forms_reach_set : Gen.tpListSpread = true ∧ Gen.tpDictSpread = true ∧ Gen.tpNumberFirst = true := by decide
+
+/-- the name table: every canonical unit is a name of itself (so validating twice changes nothing), no name spells two
+    units, and `None` ("inherit the parent's unit") is spelled by `None` only -/
+theorem C17_unit_table_sound :
+    (∀ e ∈ Gen.unitTable, lookup Gen.unitTable e.1 = some e.1) ∧
+    (Gen.unitTable.flatMap (·.2)).Nodup ∧
+    (∀ e ∈ Gen.unitTable, e.1 = none → e.2 = [none]) ∧
+    (∀ n ∈ Gen.timeUnitNames, lookup Gen.unitTable (some n) = some (some n)) := by decide
+
+/-- **A supplied name is never turned into "inherit"**: whatever string (or other hashable) is given as a unit, the table
+    either does not know it or maps it to a real canonical unit. -/
+theorem C17_unit_name_never_inherit (u : String) : lookup Gen.unitTable (some u) ≠ some none := by
+  intro h
+  obtain ⟨ns, hm, hu⟩ := lookup_mem _ _ _ h
+  have := C17_unit_table_sound.2.2.1 (none, ns) hm rfl
+  simp at this; subst this; simp at hu
+
+/-- **Every field of a list / dict value is applied as given or the update raises** (for EVERY existing time parameter —
+    initialised or not — and EVERY combination of supplied fields): after a `set()` that returns,
+    a supplied unit / parent-unit NAME is in effect as the real canonical unit it spells — an unknown name cannot return, and
+    no name degrades to "inherit" —, the supplied value, `self_dt` and `parent_dt` are stored as given, and fields that were
+    not supplied keep what they had. -/
+theorem C17_timepar_fields_applied_or_rejected (st st' : TP) (a : Args) (h : genSet st a = .ok st') :
+    (∀ u, a.unit = some u → ∃ c, lookup Gen.unitTable (some u) = some (some c) ∧ st'.unit = some c) ∧
+    (∀ u, a.parentUnit = some u → ∃ c, lookup Gen.unitTable (some u) = some (some c) ∧ st'.parentUnit = some c) ∧
+    (∀ x, a.v = some x → st'.v = x) ∧ (∀ x, a.selfDt = some x → st'.selfDt = some x) ∧
+    (∀ x, a.parentDt = some x → st'.parentDt = some x) ∧
+    (a.v = none → st'.v = st.v) ∧ (a.selfDt = none → st'.selfDt = st.selfDt) ∧
+    (a.unit = none → lookup Gen.unitTable st.unit = some st'.unit) := by
+  have hv := validate_ok _ _ _ (genSet_ok st st' a h)
+  obtain ⟨hu, hpu, hvv, hsd, hpd, _⟩ := hv
+  obtain ⟨f1, f2, f3, f4, f5, _⟩ := assigned_fields st a
+  rw [f2] at hu; rw [f3] at hpu; rw [f1] at hvv; rw [f5] at hsd; rw [f4] at hpd
+  refine ⟨?_, ?_, ?_, ?_, ?_, ?_, ?_, ?_⟩
+  · intro u hau
+    rw [hau] at hu; simp at hu
+    cases hc : st'.unit with
+    | none => rw [hc] at hu; exact absurd hu (C17_unit_name_never_inherit u)
+    | some c => rw [hc] at hu; exact ⟨c, hu, rfl⟩
+  · intro u hau
+    rw [hau] at hpu; simp at hpu
+    cases hc : st'.parentUnit with
+    | none => rw [hc] at hpu; exact absurd hpu (C17_unit_name_never_inherit u)
+    | some c => rw [hc] at hpu; exact ⟨c, hpu, rfl⟩
+  · intro x hx; simp [hvv, hx]
+  · intro x hx; simp [hsd, hx]
+  · intro x hx; simp [hpd, hx]
+  · intro hx; simp [hvv, hx]
+  · intro hx; simp [hsd, hx]
+  · intro hx; rw [hx] at hu; simpa using hu
+
+/-- **An unknown unit name is rejected**, in whichever field and form it arrives. -/
+theorem C17_timepar_unknown_unit_rejected (st : TP) (a : Args) (u : String)
+    (hu : lookup Gen.unitTable (some u) = none) (ha : a.unit = some u ∨ a.parentUnit = some u) :
+    ∃ e, genSet st a = .error e := by
+  cases hr : genSet st a with
+  | error e => exact ⟨e, rfl⟩
+  | ok st' =>
+    have h := C17_timepar_fields_applied_or_rejected st st' a hr
+    rcases ha with ha | ha
+    · obtain ⟨c, hc, _⟩ := h.1 u ha; rw [hu] at hc; simp at hc
+    · obtain ⟨c, hc, _⟩ := h.2.1 u ha; rw [hu] at hc; simp at hc
+
+/-- **List form ≡ dict form ≡ explicit constructor** for a parameter that is not yet initialised (the configure-then-build
+    flow): `old.set(fields)` is exactly `type(old)(old's fields overridden by the supplied ones)` — same acceptance, same
+    canonical units, same values. -/
+theorem C17_timepar_set_equiv_ctor (st : TP) (a : Args) (hi : st.initialized = false) (hf : a.force = false) :
+    genSet st a = genCtor (mergeArgs st a) := by
+  unfold genSet genCtor tpSet tpCtor
+  simp only [Gen.tpSetSteps, Gen.tpCtorSteps, runSteps, stepSet_assign, stepSet_store]
+  have hidle := cached_idle genEnv a (assigned st a) (by rw [(assigned_fields st a).2.2.2.2.2]; exact hi) hf
+  change (match stepSet genEnv a (assigned st a) .updateCachedIfLive with
+          | .ok s => (match stepSet genEnv a s .validate with | .ok s' => Except.ok s' | .error e => .error e)
+          | .error e => .error e) = _
+  rw [hidle]
+  have heq : assigned st a = storeField .selfDt (mergeArgs st a) (storeField .parentDt (mergeArgs st a) (storeField .parentUnit (mergeArgs st a)
+      (storeField .unit (mergeArgs st a) (storeField .v (mergeArgs st a) blank)))) := by
+    obtain ⟨sv, su, spu, spd, ssd, si⟩ := st
+    obtain ⟨av, au, apu, apd, asd, af⟩ := a
+    simp at hi; subst hi
+    cases av <;> cases au <;> cases apu <;> cases apd <;> cases asd <;> simp [assigned, assignField, storeField, mergeArgs, blank]
+  rw [← heq]
+  rfl
+
+/-- Non-vacuity: an alias in list / dict form is applied as its canonical unit, a non-name is a ValueError, an unsupplied unit
+    is kept, and on an initialised parameter the cached factor is recomputed BEFORE the names are mapped (so an alias that is
+    not a key of `time_units` raises there — rejected, never dropped). -/
+example :
+    genSet ⟨3, none, none, none, some 1, false⟩ { v := some 40, unit := some "wk" } = .ok ⟨40, some "week", none, none, some 1, false⟩ ∧
+    genSet ⟨3, none, none, none, some 1, false⟩ { v := some 40, unit := some "wks" } = .error .value ∧
+    genSet ⟨3, some "day", none, none, some 1, false⟩ { v := some 40 } = .ok ⟨40, some "day", none, none, some 1, false⟩ ∧
+    genSet ⟨3, some "day", none, none, some 1, false⟩ { parentUnit := some "Year" } = .error .value ∧
+    genSet ⟨3, some "day", some "year", some 1, some 1, true⟩ { unit := some "week" } = .ok ⟨3, some "week", some "year", some 1, some 1, true⟩ ∧
+    genSet ⟨3, some "day", some "year", some 1, some 1, true⟩ { unit := some "weeks" } = .error .keyNotFound ∧
+    genCtor { v := some 40, unit := some "wk", selfDt := some 1 } = .ok ⟨40, some "week", none, none, some 1, false⟩ := by decide
+
+end TimeParFields
 
 end StarsimModel.C17
